@@ -786,6 +786,11 @@ def token_strings(G, rng, tier):
     k = 3 if tier == "quick" else 5
     if len(terms) > 3:
         k -= 1
+    # all strings up to length k, as long as there are at most a few thousand of them (a grammar with hundreds of
+    # terminals gets the short ones only)
+    cap = 1500 if tier == "quick" else 4000
+    while k > 1 and sum(len(terms) ** j for j in range(k + 1)) > cap:
+        k -= 1
     strs = gen.all_strings(terms, k) if terms else [[]]
     seen = {tuple(s) for s in strs}
     for _ in range(12 if tier == "quick" else 40):
